@@ -1458,6 +1458,9 @@ def forest_sprite(levels: List[int], flags: List[int], rng: random.Random) -> di
     n = len(levels)
     layers = []
     cels = {}
+    # one canvas pixel per layer, row-major on a canvas at most 256 wide (cel offsets are 16-bit signed fields)
+    W = max(1, min(n, 256))
+    H = max(1, -(-n // W))
     for i in range(n):
         group = i + 1 < n and levels[i + 1] > levels[i]
         layers.append({"flags": flags[i], "ltype": 1 if group else 0, "level": levels[i], "blend": 0, "opacity": 255, "name": "L%d" % i,
@@ -1466,11 +1469,12 @@ def forest_sprite(levels: List[int], flags: List[int], rng: random.Random) -> di
             if rng.random() < 0.3:
                 # a tilemap layer (1 x 1 tiles; tile 1 is opaque): visibility through the ancestors applies to it like to any layer
                 layers[-1]["ltype"], layers[-1]["tileset"] = 2, 0
-                cels[(0, i)] = {"kind": "tilemap", "x": i, "y": 0, "w": 1, "h": 1, "opacity": 255, "tiles": [1], "ud": None}
+                cels[(0, i)] = {"kind": "tilemap", "x": i % W, "y": i // W, "w": 1, "h": 1, "opacity": 255, "tiles": [1], "ud": None}
             else:
-                cels[(0, i)] = {"kind": "raw", "x": i, "y": 0, "w": 1, "h": 1, "opacity": 255, "pixels": [(10 + i, 20, 30, 255)], "ud": None}
+                cels[(0, i)] = {"kind": "raw", "x": i % W, "y": i // W, "w": 1, "h": 1, "opacity": 255,
+                                "pixels": [((10 + i) & 255, 20, 30, 255)], "ud": None}
     tilesets = [{"id": 0, "count": 2, "tw": 1, "th": 1, "base": 1, "name": "t", "ext": None, "empty0": True, "pixels": [(0, 0, 0, 0), (200, 100, 50, 255)]}]
-    return {"width": max(n, 1), "height": 1, "depth": 32, "transparent": 0, "durations": [100], "speed": 100, "palette_chunks": [],
+    return {"width": W, "height": H, "depth": 32, "transparent": 0, "durations": [100], "speed": 100, "palette_chunks": [],
             "palette": None, "sprite_ud": None, "ext_files": [], "tilesets": tilesets if any(l["ltype"] == 2 for l in layers) else [],
             "layers": layers, "cels": cels, "tags": [], "has_tags_chunk": False, "slices": []}
 
@@ -1492,12 +1496,12 @@ def direct_C09(s, data, blk) -> List[str]:
             out.append("is_visible(layer %d) = %d, flags of it and its ancestors give %d (levels %s)" % (i, l[8], vis[i], levels))
     im = images_of(blk, 22).get((0,))
     if im is not None:
-        W = s["width"]
+        W, H = s["width"], s["height"]
         for i in range(len(levels)):
             c = s["cels"].get((0, i))
-            if c is None or not (0 <= c["x"] < W) or c["y"] != 0:
+            if c is None or not (0 <= c["x"] < W and 0 <= c["y"] < H):
                 continue
-            shown = im[2 + c["x"]] != 0
+            shown = im[2 + c["y"] * W + c["x"]] != 0
             if shown != bool(vis[i]):
                 out.append("layer %d (visible=%d) %s in the frame image" % (i, vis[i], "shows" if shown else "does not show"))
     return out[:3]
